@@ -11,6 +11,9 @@ pub enum ClockMode {
     Fixed,
     StepBucket,
     StepRing,
+    /// the clock is advanced by a whole ring BEFORE the threads start (existing resource): every
+    /// thread finds the slot holding a stale bucket with counts and they recycle it concurrently
+    RingBefore,
 }
 
 fn body(threads: usize, pairs: usize, fresh: bool, inbound: bool, cm: ClockMode, batch: u32) -> Body {
@@ -20,9 +23,17 @@ fn body(threads: usize, pairs: usize, fresh: bool, inbound: bool, cm: ClockMode,
         let tt = if inbound { TrafficType::Inbound } else { TrafficType::Outbound };
         let mut pre = 0u64;
         if !fresh {
-            let e = EntryBuilder::new(res.clone()).with_traffic_type(tt).with_batch_count(batch).build().expect("no rules loaded");
+            // RingBefore: the stale bucket holds MORE than the threads will add, so that a count
+            // taken out twice shows as an excess (a wrapped counter) and not as a miss
+            let pre_batch = if cm == ClockMode::RingBefore { 7 } else { batch };
+            let e = EntryBuilder::new(res.clone()).with_traffic_type(tt).with_batch_count(pre_batch).build().expect("no rules loaded");
             e.exit();
-            pre = batch as u64;
+            pre = pre_batch as u64;
+        }
+        if cm == ClockMode::RingBefore {
+            clock::advance_ms(10_000);
+            // the stale bucket's counts are outside every window now
+            pre = 0;
         }
         let ptrs: Arc<Mutex<Vec<usize>>> = Arc::new(Mutex::new(vec![]));
         let mut hs = vec![];
@@ -39,7 +50,7 @@ fn body(threads: usize, pairs: usize, fresh: bool, inbound: bool, cm: ClockMode,
                 }
             }));
         }
-        if cm != ClockMode::Fixed {
+        if cm == ClockMode::StepBucket || cm == ClockMode::StepRing {
             let d = if cm == ClockMode::StepBucket { 500 } else { 10_000 };
             hs.push(shuttle::thread::spawn(move || clock::advance_ms(d)));
         }
@@ -135,6 +146,16 @@ fn exits_with_rt(threads: usize, inbound: bool, rt_ms: u64, second_bucket: bool)
 pub fn scenarios(thorough: bool) -> Vec<Scenario> {
     let mut v = vec![];
     let mut extra: Vec<Scenario> = vec![];
+    // concurrent recycling of a stale bucket that holds counts
+    for inb in [false, true] {
+        if !thorough && inb {
+            continue;
+        }
+        extra.push(Scenario { name: format!("T2xP1-existing-{}-RingBefore-b1", if inb { "in" } else { "out" }), bound: if thorough { 3 } else { 2 }, cap: 0, body: body(2, 1, false, inb, ClockMode::RingBefore, 1) });
+    }
+    if thorough {
+        extra.push(Scenario { name: "T3xP1-existing-out-RingBefore-b2".into(), bound: 2, cap: 0, body: body(3, 1, false, false, ClockMode::RingBefore, 2) });
+    }
     // concurrent exits with a non-zero response time
     extra.push(Scenario { name: "exits-rt5-T2-out-same-bucket".into(), bound: 2, cap: 0, body: exits_with_rt(2, false, 5, false) });
     extra.push(Scenario { name: "exits-rt5-T2-in-next-bucket".into(), bound: if thorough { 2 } else { 1 }, cap: 0, body: exits_with_rt(2, true, 5, true) });
